@@ -54,6 +54,9 @@ GInit ==
   \* of the two; the positions of a path are counted per field
   /\ \A nested \in BOOLEAN : \A w1 \in {1, 3} : \A w2 \in {1, 2} : \A multi \in {"none", "first", "second"} : \A other \in BOOLEAN :
        PrintT(<<"CASE", ToJson([what |-> "json2", nested |-> nested, words1 |-> w1, words2 |-> w2, multi |-> multi, disjoint_path_too |-> other])>>)
+  \* tokens around MaxTokenLen: alone in a value, between normal tokens, in one value of a multi-valued field
+  /\ \A n \in {MaxTokenLen, MaxTokenLen + 1, 70000} : \A place \in {"alone", "between", "multi"} : \A o \in {"pos", "frq", "bas"} :
+       PrintT(<<"CASE", ToJson([what |-> "longtok", bytes |-> n, place |-> place, opt |-> o, dropped |-> n > MaxTokenLen])>>)
 GNext == done' = TRUE /\ UNCHANGED ivars
 GSpec == GInit /\ [][GNext]_<<done, ivars>>
 =============================================================================
